@@ -112,7 +112,21 @@ struct RecSink
         events().push_back(e);
     }
 };
-using Sink = nl::sink::sequence<RecSink<0>, RecSink<1>, RecSink<2>>;
+// the middle member takes the formatted record by value: a sequence that hands the same string on as an rvalue would
+// leave the members behind it with an empty record
+template <int K>
+struct RecSinkByValue
+{
+    void sink(sev_t s, std::string formatted)
+    {
+        Event e{ 'S' };
+        e.a = K;
+        e.sev = static_cast<int>(s);
+        e.text = std::move(formatted);
+        events().push_back(e);
+    }
+};
+using Sink = nl::sink::sequence<RecSink<0>, RecSinkByValue<1>, RecSink<2>>;
 
 // ---------------------------------------------------------------------------------------------
 // filter expressions (each needs a logger type of its own)
@@ -637,7 +651,8 @@ struct Case
     int t[3] = { 0, 0, 0 };
     std::vector<Stmt> prog;
     int mode = 0; // 0 sequential statements, 1 two overlapping named streams (prog[0], prog[1], same severity),
-                  // 2 thresholds change to t2 between prog[0] and prog[1]
+                  // 2 thresholds change to t2 between prog[0] and prog[1],
+                  // 3 the statements run from a destructor while an exception is propagating (stack unwinding)
     int t2[3] = { 0, 0, 0 };
     std::string json() const
     {
@@ -680,7 +695,7 @@ struct Case
     }
     std::string cls() const
     {
-        std::string s = std::string("min") + std::to_string(VP_MIN) + " " + expr_name(expr) + (mode == 1 ? " overlapping" : mode == 2 ? " threshold-change" : "");
+        std::string s = std::string("min") + std::to_string(VP_MIN) + " " + expr_name(expr) + (mode == 1 ? " overlapping" : mode == 2 ? " threshold-change" : mode == 3 ? " during-unwinding" : "");
         for (auto& st : prog)
             s += " " + st.str();
         return s;
@@ -709,6 +724,27 @@ inline std::vector<Finding> run_case(const Case& c)
     {
         for (auto& st : c.prog)
             run_stmt_expr(c.expr, st);
+        want = ref_program(c.expr, c.t, c.prog);
+    }
+    else if (c.mode == 3)
+    {
+        struct Guard
+        {
+            const Case& c;
+            ~Guard()
+            {
+                for (auto& st : c.prog)
+                    run_stmt_expr(c.expr, st);
+            }
+        };
+        try
+        {
+            Guard g{ c };
+            throw 42; // the guard's destructor logs while this exception is in flight
+        }
+        catch (int)
+        {
+        }
         want = ref_program(c.expr, c.t, c.prog);
     }
     else if (c.mode == 2)
